@@ -161,16 +161,9 @@ struct Sources {
     handshake_done: bool,
 }
 
-fn any_sources() -> Sources {
-    Sources { ping: kani::any(), max_data: kani::any(), handshake_done: kani::any() }
-}
-
 impl Sources {
     fn any(&self) -> bool {
         self.ping || self.max_data || self.handshake_done
-    }
-    fn journal_frames(&self) -> usize {
-        self.max_data as usize + self.handshake_done as usize
     }
 }
 
@@ -225,31 +218,6 @@ fn assemble_step(journal: &ArcSentJournal<GuaranteedFrame>, s: Sources, expect_p
             (expect_pn, false)
         }
     }
-}
-
-#[kani::proof]
-#[kani::unwind(10)]
-#[kani::stub(std::sync::Mutex::lock, stub_mutex_lock)]
-#[kani::stub(tokio::time::Instant::now, stub_now)]
-#[kani::stub(std::hash::RandomState::new, fixed_random_state)]
-#[kani::stub(qevent::telemetry::Span::current, stub_span_current)]
-#[kani::stub(qevent::telemetry::macro_support::build_and_emit_event, no_emit)]
-#[kani::stub(core::slice::index::slice_index_fail, stub_slice_index_fail)]
-fn c07_j_tx_packet_writer_two_packets() {
-    let journal = ArcSentJournal::<GuaranteedFrame>::with_capacity(2);
-    let s1 = any_sources();
-    let s2 = any_sources();
-    let (n1, left1) = assemble_step(&journal, s1, 0);
-    let (n2, left2) = assemble_step(&journal, s2, n1);
-    if left1 && left2 {
-        assert!(sealed(0) < sealed(1), "no two packets are protected with the same packet number");
-    }
-    // what a third writer would get
-    assert!(peek_next(&journal) == n2, "a packet that left consumed its number, an abandoned assembly none");
-    kani::cover!(left1 && left2 && s1.journal_frames() == 0, "first packet trivial (Ping only), second follows");
-    kani::cover!(left1 && s1.journal_frames() == 2, "packet with two journal frames");
-    kani::cover!(!left1 && left2, "abandoned assembly, then a packet with the same number");
-    core::mem::forget(journal);
 }
 
 /// The same oracle over a fixed scenario (every buffer offset concrete: cheap): trivial packet,
